@@ -1,5 +1,7 @@
 import ConjureVerif.Model.SafeLong
 import ConjureVerif.Model.Uri
+import ConjureVerif.Model.Token
+import ConjureVerif.Model.Rid
 /-
 Line-protocol driver.  One operation per input line: `<property> <op> <args…>`; one output line per
 operation.  Imports models only (no Mathlib, no proofs), so it links as a native executable.
@@ -10,6 +12,8 @@ def dispatch (line : String) : String :=
   match line.trimAscii.toString.splitOn " " with
   | "C15" :: rest => SafeLong.handle rest
   | "C07" :: rest => Uri.handle rest
+  | "C16" :: "token" :: rest => Token.handle ("token" :: rest)
+  | "C16" :: rest => Rid.handle rest
   | _ => "bad-op"
 
 partial def loop (i o : IO.FS.Stream) : IO Unit := do
